@@ -59,7 +59,7 @@ META = {
          'verify < store on an open non-expired message; stored = verified signature; key looked up by slot in the epoch registration; certificate signer filter; ingestion paths; DMQ sender pairing; party-label binding: the comparison of the slot key with the key registered by the claimed party gates success on every path',
          'storage-key semantics in SQL'),
  'C17': ('static analysis: effect-closure purity + who-may-construct + arithmetic-shape rules',
-         'beacon function effect-free; block-number entity variants derived from a tip only there; shared formula with saturating subtraction and floored divisor (or checked division); operand roles incl. no dependence on another entity\'s signing configuration; all kinds handled',
+         'beacon function effect-free; block-number entity variants derived from a tip only there; rounding formula of each signing configuration with saturating subtraction and a structurally non-zero divisor (or checked division); operand roles incl. no dependence on another entity\'s signing configuration; all kinds handled',
          'the arithmetic claims (<= tip-k, monotone, multiples, range boundary)'),
  'C19': ('static analysis: effect ordering + who-may-construct + must-pass-through + provenance',
          'ancillary: temp-dir unpack < verify < move, temp dir removed on every exit; ValidatedAncillaryManifest only from verify (data hashes, signature present, configured key); only listed files moved; immutable archives unpacked into the target (known finding); unexpected files removed on every exit once downloads started; the restoring side uses the path-confining tar API only; every manifest entry hashed and compared',
